@@ -690,3 +690,359 @@ Proof. unfold convert_o. rewrite fold_step_file_o_tids. reflexivity. Qed.
    batch of an entry carries at least the options its input batch was validated with *)
 Lemma merge_o_opts_union fs c : matched tle (tids_in fs) (tids_out (merge_files_o fs c)).
 Proof. unfold merge_files_o. rewrite convert_o_tids. apply build_state_o_matched. Qed.
+
+(* ================================================================ options of the out-files *)
+
+Lemma add_file_o_spec st f :
+  (exists l1 o l2, st = l1 ++ o :: l2 /\ ofo_route o = fo_route f /\
+      (forall x, In x l1 -> ofo_route x <> fo_route f) /\ add_file_o st f = l1 ++ add_to_o o f :: l2)
+  \/ ((forall x, In x st -> ofo_route x <> fo_route f) /\
+      add_file_o st f = st ++ [add_to_o (new_ofile_o f None) f]).
+Proof.
+  induction st as [|o r IH]; cbn [add_file_o].
+  - right. split; [intros x []|reflexivity].
+  - destruct (same_route_o o f) eqn:Hs.
+    + left. exists [], o, r. cbn [app]. repeat split; [now apply same_route_o_eq|intros x []].
+    + apply same_route_o_false in Hs. destruct IH as [(l1 & o' & l2 & -> & Hr & Hl1 & ->)|[Hall ->]].
+      * left. exists (o :: l1), o', l2. cbn [app]. repeat split; [exact Hr|].
+        intros x [<-|Hx]; [exact Hs|now apply Hl1].
+      * right. split; [intros x [<-|Hx]; [exact Hs|now apply Hall]|reflexivity].
+Qed.
+
+Definition routes_nodup (st : list ofileo) : Prop := NoDup (map ofo_route st).
+Definition covered (st : list ofileo) (seen : list ifileo) : Prop :=
+  forall f, In f seen -> In (fo_route f) (map ofo_route st).
+(* the out-file of a routing pair holds exactly what the files of that pair seen so far hold *)
+Definition fexact (p : opts -> bool) (st : list ofileo) (seen : list ifileo) : Prop :=
+  forall o, In o st ->
+    (ohas p (ofo_opts o) = true <->
+     exists f, In f seen /\ fo_route f = ofo_route o /\ ohas p (fo_opts f) = true).
+Definition finv (p : opts -> bool) (st : list ofileo) (seen : list ifileo) : Prop :=
+  routes_nodup st /\ covered st seen /\ fexact p st seen.
+
+Lemma ex_seen_skip (P : ifileo -> Prop) f seen r :
+  fo_route f <> r ->
+  ((exists f', In f' (f :: seen) /\ fo_route f' = r /\ P f') <-> (exists f', In f' seen /\ fo_route f' = r /\ P f')).
+Proof.
+  intros Hne. split; intros (f' & Hin & Hr & HP).
+  - destruct Hin as [<-|Hin]; [contradiction|]. now exists f'.
+  - exists f'. split; [now right|auto].
+Qed.
+
+Lemma add_file_o_finv p st seen f : orhom p -> finv p st seen -> finv p (add_file_o st f) (f :: seen).
+Proof.
+  intros Hp (Hnd & Hcov & Hex). unfold routes_nodup in Hnd.
+  destruct (add_file_o_spec st f) as [(l1 & o & l2 & Hst & Hr & Hl1 & ->)|[Hall ->]].
+  - subst st.
+    assert (Hroutes : map ofo_route (l1 ++ add_to_o o f :: l2) = map ofo_route (l1 ++ o :: l2)).
+    { rewrite !map_app. cbn [map]. now rewrite add_to_o_route. }
+    split; [unfold routes_nodup; now rewrite Hroutes|]. split.
+    + intros f' [<-|Hin]; rewrite Hroutes; [|now apply Hcov].
+      rewrite <- Hr. apply in_map, in_elt.
+    + assert (Hl2 : forall x, In x l2 -> ofo_route x <> fo_route f).
+      { intros x Hx E. rewrite map_app in Hnd. cbn [map] in Hnd. apply NoDup_remove_2 in Hnd.
+        apply Hnd. rewrite <- Hr in E. rewrite <- E. rewrite <- map_app. apply in_map, in_or_app. now right. }
+      intros x Hx. apply in_app_or in Hx as [Hx|[<-|Hx]].
+      * rewrite ex_seen_skip; [|intros E; now apply (Hl1 x Hx)]. apply Hex, in_or_app. now left.
+      * rewrite add_to_o_route. cbn [add_to_o ofo_opts]. rewrite (ohas_omerge _ _ _ Hp), orb_true_iff.
+        specialize (Hex o (in_elt o l1 l2)). rewrite Hex. split.
+        -- intros [(f' & Hin & Hr' & Hf')|Hf]; [exists f'; split; [now right|auto]|].
+           exists f. split; [now left|]. split; [now symmetry|exact Hf].
+        -- intros (f' & [<-|Hin] & Hr' & Hf'); [now right|]. left. now exists f'.
+      * rewrite ex_seen_skip; [|intros E; now apply (Hl2 x Hx)]. apply Hex, in_or_app. right. now right.
+  - split; [|split].
+    + unfold routes_nodup. rewrite map_app. cbn [map]. rewrite add_to_o_route.
+      eapply Permutation_NoDup; [apply Permutation_cons_append|]. constructor; [|exact Hnd].
+      cbn. intros Hin. apply in_map_iff in Hin as (x & Hx & Hin). now apply (Hall x Hin).
+    + intros f' [<-|Hin]; rewrite map_app; apply in_or_app.
+      * right. cbn. now left.
+      * left. now apply Hcov.
+    + intros x Hx. apply in_app_or in Hx as [Hx|[<-|[]]].
+      * rewrite ex_seen_skip; [|intros E; now apply (Hall x Hx)]. now apply Hex.
+      * rewrite add_to_o_route. cbn [add_to_o new_ofile_o ofo_opts omerge ofo_origin ofo_dest].
+        change (ofo_route (new_ofile_o f None)) with (fo_route f). split.
+        -- intros Hf. exists f. split; [now left|]. split; [reflexivity|exact Hf].
+        -- intros (f' & [<-|Hin] & Hr' & Hf'); [exact Hf'|]. exfalso.
+           apply Hcov in Hin. apply in_map_iff in Hin as (x & Hx & Hin). apply (Hall x Hin). congruence.
+Qed.
+
+Lemma add_files_o_finv p fs : forall st seen,
+  orhom p -> finv p st seen -> finv p (fold_left add_file_o fs st) (rev fs ++ seen).
+Proof.
+  induction fs as [|f fs IH]; intros st seen Hp H; cbn [fold_left rev app]; [exact H|].
+  rewrite <- app_assoc. cbn [app]. apply IH; [exact Hp|]. now apply add_file_o_finv.
+Qed.
+
+Lemma build_state_o_finv p fs : orhom p ->
+  routes_nodup (build_state_o fs) /\
+  forall o, In o (build_state_o fs) ->
+    (ohas p (ofo_opts o) = true <->
+     exists f, In f fs /\ fo_route f = ofo_route o /\ ohas p (fo_opts f) = true).
+Proof.
+  intros Hp. unfold build_state_o. destruct fs as [|f0 fs']; [split; [constructor|intros o []]|].
+  assert (H0 : finv p [new_ofile_o f0 (fo_opts f0)] [f0]).
+  { split; [|split].
+    - unfold routes_nodup. cbn. constructor; [intros []|constructor].
+    - intros f [<-|[]]. cbn. now left.
+    - intros o [<-|[]]. cbn [new_ofile_o ofo_opts]. change (ofo_route (new_ofile_o f0 (fo_opts f0))) with (fo_route f0).
+      split.
+      + intros Hf. exists f0. split; [now left|]. split; [reflexivity|exact Hf].
+      + intros (f & [<-|[]] & _ & Hf). exact Hf. }
+  destruct (add_files_o_finv p (f0 :: fs') _ _ Hp H0) as (Hnd & _ & Hex).
+  split; [exact Hnd|]. intros o Ho. rewrite (Hex o Ho). split; intros (f & Hin & Hr & Hf); exists f; (split; [|auto]).
+  - apply in_app_or in Hin as [Hin|[<-|[]]]; [now apply in_rev|now left].
+  - apply in_or_app. left. now apply in_rev in Hin.
+Qed.
+
+(* ================================================================ a generic invariant rule for convertToFiles (with options) *)
+
+Section ConvertInvariantO.
+  Variables (c : conds) (M : Z).
+  Variable Po : ofileo -> Prop.
+  Variable B : ofileo -> header -> vopts -> list entry -> cstateo -> Prop.
+  Variable F : ofileo -> cstateo -> Prop.
+  Variable G : list rfileo * Z -> Prop.
+  Hypothesis file_start : forall o acc, Po o -> G acc -> F o (mkCO (fst acc) (new_file_opts o) [] [] 2 0 (snd acc)).
+  Hypothesis batch_start : forall o b s, Po o -> In b (ofo_batches o) -> F o s ->
+    B o (obo_header b) (obo_opts b) (map snd (obo_entries b))
+      (mkCO (co_out s) (co_fopts s) (co_file s) [] (co_L s + 2) (co_D s) (co_bn s + 1)).
+  Hypothesis entry_step : forall o h bo e rest s, Po o -> B o h bo (e :: rest) s ->
+    B o h bo rest (step_entry_o c M o h bo s e).
+  Hypothesis batch_end : forall o h bo s, Po o -> B o h bo [] s ->
+    F o (mkCO (co_out s) (co_fopts s) (close_batch_o h bo s) [] (co_L s) (co_D s) (co_bn s)).
+  Hypothesis file_end : forall o s, Po o -> F o s -> G (close_file_o o (co_fopts s) (co_file s) (co_out s), co_bn s).
+
+  Lemma invo_entries o h bo es s : Po o -> B o h bo es s -> B o h bo [] (fold_left (step_entry_o c M o h bo) es s).
+  Proof.
+    intros Ho. revert s. induction es as [|e es IH]; intros s Hs; cbn [fold_left]; [exact Hs|].
+    apply IH. now apply entry_step.
+  Qed.
+
+  Lemma invo_batches o bs s : Po o -> incl bs (ofo_batches o) -> F o s -> F o (fold_left (step_batch_o c M o) bs s).
+  Proof.
+    intros Ho. revert s. induction bs as [|b bs IH]; intros s Hin Hs; cbn [fold_left]; [exact Hs|].
+    apply IH; [intros x Hx; apply Hin; now right|].
+    unfold step_batch_o. apply batch_end; [exact Ho|]. apply invo_entries; [exact Ho|].
+    apply batch_start; [exact Ho| apply Hin; now left | exact Hs].
+  Qed.
+
+  Lemma invo_files st acc : Forall Po st -> G acc -> G (fold_left (step_file_o c M) st acc).
+  Proof.
+    revert acc. induction st as [|o st IH]; intros acc Hst Hacc; cbn [fold_left]; [exact Hacc|].
+    inversion Hst as [|? ? Ho Hst']; subst. apply IH; [exact Hst'|].
+    unfold step_file_o. apply file_end; [exact Ho|]. apply invo_batches; [exact Ho|apply incl_refl|].
+    now apply file_start.
+  Qed.
+End ConvertInvariantO.
+
+(* where an output file and its batches come from *)
+Definition rb_from (o : ofileo) (rb : rbatcho) : Prop :=
+  exists b, In b (ofo_batches o) /\ rbo_header rb = obo_header b /\ rbo_opts rb = obo_opts b.
+Definition rf_from (st : list ofileo) (g : rfileo) : Prop :=
+  exists o, In o st /\ rfo_route g = ofo_route o /\ rfo_opts g = ofo_opts o /\ Forall (rb_from o) (rfo_batches g).
+
+Lemma renumber_o_from o seq bs : Forall (rb_from o) bs -> Forall (rb_from o) (renumber_o seq bs).
+Proof.
+  revert seq. induction bs as [|b r IH]; intros seq H; cbn [renumber_o]; [constructor|].
+  inversion H as [|? ? Hb Hr]; subst. constructor; [|now apply IH].
+  destruct (rbo_number b <=? 1); [|exact Hb]. destruct Hb as (b0 & H1 & H2 & H3). now exists b0.
+Qed.
+
+Lemma close_file_o_from st o bs out :
+  In o st -> Forall (rf_from st) out -> Forall (rb_from o) bs ->
+  Forall (rf_from st) (close_file_o o (ofo_opts o) bs out).
+Proof.
+  intros Ho Hout Hbs. unfold close_file_o. destruct bs as [|b r]; [exact Hout|].
+  apply Forall_app. split; [exact Hout|]. constructor; [|constructor].
+  exists o. split; [exact Ho|]. split; [reflexivity|]. split; [reflexivity|].
+  unfold create_file_o. cbn [rfo_batches]. now apply renumber_o_from.
+Qed.
+
+Lemma close_batch_o_from o b s :
+  In b (ofo_batches o) -> Forall (rb_from o) (co_file s) ->
+  Forall (rb_from o) (close_batch_o (obo_header b) (obo_opts b) s).
+Proof.
+  intros Hb Hf. unfold close_batch_o. destruct (co_bent s); [exact Hf|].
+  apply Forall_app. split; [exact Hf|]. constructor; [|constructor]. now exists b.
+Qed.
+
+Lemma convert_o_from c st : Forall (rf_from st) (convert_o c st).
+Proof.
+  unfold convert_o.
+  apply (invo_files c (effective_dollar c) (fun o => In o st)
+    (fun o h bo _ s => Forall (rf_from st) (co_out s) /\ co_fopts s = ofo_opts o /\ Forall (rb_from o) (co_file s)
+                       /\ exists b, In b (ofo_batches o) /\ h = obo_header b /\ bo = obo_opts b)
+    (fun o s => Forall (rf_from st) (co_out s) /\ co_fopts s = ofo_opts o /\ Forall (rb_from o) (co_file s))
+    (fun acc => Forall (rf_from st) (fst acc))).
+  - intros o acc Ho Hacc. cbn [co_out co_fopts co_file]. repeat split; [exact Hacc|constructor].
+  - intros o b s Ho Hb (H1 & H2 & H3). cbn [co_out co_fopts co_file]. repeat split; auto. now exists b.
+  - intros o h bo e rest s Ho (H1 & H2 & H3 & b & Hb & -> & ->). unfold step_entry_o.
+    destruct (exceeds c (effective_dollar c) (co_L s) (co_D s) e); cbn [co_out co_fopts co_file].
+    + split; [|split; [reflexivity|split; [constructor|now exists b]]].
+      rewrite H2. apply close_file_o_from; [exact Ho|exact H1|]. now apply close_batch_o_from.
+    + repeat split; auto. now exists b.
+  - intros o h bo s Ho (H1 & H2 & H3 & b & Hb & -> & ->). cbn [co_out co_fopts co_file].
+    repeat split; auto. now apply close_batch_o_from.
+  - intros o s Ho (H1 & H2 & H3). cbn [fst]. rewrite H2. now apply close_file_o_from.
+  - apply Forall_forall. auto.
+  - constructor.
+Qed.
+
+Lemma merge_o_file_from fs c g :
+  In g (merge_files_o fs c) ->
+  exists o, In o (build_state_o fs) /\ rfo_route g = ofo_route o /\ rfo_opts g = ofo_opts o
+            /\ Forall (rb_from o) (rfo_batches g).
+Proof.
+  intros Hg. pose proof (convert_o_from c (build_state_o fs)) as H.
+  rewrite Forall_forall in H. exact (H g Hg).
+Qed.
+
+(* the options of an output file are exactly what the input files of its routing pair hold *)
+Lemma merge_o_file_exact p fs c g : orhom p -> In g (merge_files_o fs c) ->
+  (ohas p (rfo_opts g) = true <->
+   exists f, In f fs /\ fo_route f = rfo_route g /\ ohas p (fo_opts f) = true).
+Proof.
+  intros Hp Hg. destruct (merge_o_file_from fs c g Hg) as (o & Ho & Hr & Hopts & _).
+  rewrite Hopts, Hr. now apply build_state_o_finv.
+Qed.
+
+Lemma merge_o_file_union fs c g f :
+  In g (merge_files_o fs c) -> In f fs -> fo_route f = rfo_route g -> osub (fo_opts f) (rfo_opts g).
+Proof.
+  intros Hg Hf Hr. apply osub_ohas.
+  assert (H : forall p, orhom p -> ohas p (fo_opts f) = true -> ohas p (rfo_opts g) = true).
+  { intros p Hp Hpf. apply (merge_o_file_exact p fs c g Hp Hg). now exists f. }
+  split; [apply H, orhom_set|]. split; [intros i; apply H, orhom_flag|apply H, orhom_ctc].
+Qed.
+
+Lemma merge_o_file_order_independent p fs fs' c c' g g' :
+  orhom p -> Permutation fs fs' -> In g (merge_files_o fs c) -> In g' (merge_files_o fs' c') ->
+  rfo_route g = rfo_route g' -> ohas p (rfo_opts g) = ohas p (rfo_opts g').
+Proof.
+  intros Hp Hperm Hg Hg' Hr.
+  pose proof (merge_o_file_exact p fs c g Hp Hg) as H1.
+  pose proof (merge_o_file_exact p fs' c' g' Hp Hg') as H2.
+  assert (E : ohas p (rfo_opts g) = true <-> ohas p (rfo_opts g') = true).
+  { rewrite H1, H2. split; intros (f & Hin & Hrf & Hf); exists f; (split; [|split; [congruence|exact Hf]]).
+    - eapply Permutation_in; eauto.
+    - eapply Permutation_in; [apply Permutation_sym|]; eauto. }
+  destruct (ohas p (rfo_opts g)), (ohas p (rfo_opts g')); try reflexivity.
+  - symmetry. now apply E.
+  - now apply E.
+Qed.
+
+(* ================================================================ options of the out-batches: nothing invented *)
+
+(* what an out-batch holds is held by an input batch (with at least one entry) of the same
+   routing pair and header key, among the files seen so far *)
+Definition bsrc (p : opts -> bool) (seen : list ifileo) (r : route_t) (b : obatcho) : Prop :=
+  ohas p (obo_opts b) = true ->
+  exists f ib, In f seen /\ In ib (fo_batches f) /\ fo_route f = r
+               /\ hkey (ib_header (ibo_batch ib)) = hkey (obo_header b)
+               /\ ib_entries (ibo_batch ib) <> []
+               /\ ohas p (batch_in_opts (fo_opts f) ib) = true.
+
+Lemma place_o_forall (Q : obatcho -> Prop) h o e bs :
+  Forall Q bs ->
+  (forall b, Q b -> header_equal (obo_header b) h = true ->
+     Q (mkOBO (obo_header b) (tm_set (e_trace e) e (obo_entries b)) (omerge (obo_opts b) o))) ->
+  Q (mkOBO h (tm_set (e_trace e) e []) o) ->
+  Forall Q (place_o h o e bs).
+Proof.
+  intros Hbs Hre Hnew. induction bs as [|b r IH]; cbn [place_o]; [constructor; [exact Hnew|constructor]|].
+  inversion Hbs as [|? ? Hb Hr]; subst.
+  destruct (header_equal (obo_header b) h && negb (tm_contains (e_trace e) (obo_entries b))) eqn:Hc.
+  - apply andb_prop in Hc as [Hh _]. constructor; [now apply Hre|exact Hr].
+  - constructor; [exact Hb|now apply IH].
+Qed.
+
+Lemma bsrc_mono p seen seen' r b : incl seen seen' -> bsrc p seen r b -> bsrc p seen' r b.
+Proof.
+  intros Hi H Hp. destruct (H Hp) as (f & ib & H1 & H2). exists f, ib. split; [now apply Hi|exact H2].
+Qed.
+
+Lemma add_batch_o_bsrc p seen f ib bs :
+  orhom p -> In f seen -> In ib (fo_batches f) ->
+  Forall (bsrc p seen (fo_route f)) bs -> Forall (bsrc p seen (fo_route f)) (add_batch_o (fo_opts f) bs ib).
+Proof.
+  intros Hp Hf Hib. unfold add_batch_o.
+  destruct (ib_entries (ibo_batch ib)) as [|e0 es0] eqn:E; [auto|].
+  assert (Hne : ib_entries (ibo_batch ib) <> []) by (rewrite E; discriminate).
+  generalize (e0 :: es0) as es. intros es. revert bs.
+  induction es as [|e es IH]; intros bs Hbs; cbn [fold_left]; [exact Hbs|].
+  apply IH. apply place_o_forall; [exact Hbs| |].
+  - intros b Hb Hh. unfold bsrc. cbn [obo_opts obo_header]. rewrite (ohas_omerge _ _ _ Hp), orb_true_iff.
+    intros [Hl|Hr]; [now apply Hb|]. exists f, ib. repeat split; auto.
+    symmetry. now apply header_equal_hkey.
+  - unfold bsrc. cbn [obo_opts obo_header]. intros Hr. exists f, ib. repeat split; auto.
+Qed.
+
+Lemma add_batches_o_bsrc p seen f ibs bs :
+  orhom p -> In f seen -> incl ibs (fo_batches f) ->
+  Forall (bsrc p seen (fo_route f)) bs ->
+  Forall (bsrc p seen (fo_route f)) (fold_left (add_batch_o (fo_opts f)) ibs bs).
+Proof.
+  intros Hp Hf. revert bs. induction ibs as [|ib ibs IH]; intros bs Hi Hbs; cbn [fold_left]; [exact Hbs|].
+  apply IH; [intros x Hx; apply Hi; now right|]. apply add_batch_o_bsrc; auto. apply Hi. now left.
+Qed.
+
+Definition bsinv (p : opts -> bool) (seen : list ifileo) (st : list ofileo) : Prop :=
+  Forall (fun o => Forall (bsrc p seen (ofo_route o)) (ofo_batches o)) st.
+
+Lemma bsinv_mono p seen seen' st : incl seen seen' -> bsinv p seen st -> bsinv p seen' st.
+Proof.
+  intros Hi H. unfold bsinv in *. eapply Forall_impl; [|exact H]. cbn. intros o Ho.
+  eapply Forall_impl; [|exact Ho]. intros b. now apply bsrc_mono.
+Qed.
+
+Lemma add_to_o_bsrc p seen o f :
+  orhom p -> ofo_route o = fo_route f ->
+  Forall (bsrc p seen (ofo_route o)) (ofo_batches o) ->
+  Forall (bsrc p (f :: seen) (ofo_route (add_to_o o f))) (ofo_batches (add_to_o o f)).
+Proof.
+  intros Hp Hr Ho. rewrite add_to_o_route, Hr. cbn [add_to_o ofo_batches].
+  apply add_batches_o_bsrc; [exact Hp|now left|apply incl_refl|].
+  rewrite <- Hr. eapply Forall_impl; [|exact Ho]. intros b. apply bsrc_mono. intros x Hx. now right.
+Qed.
+
+Lemma add_file_o_bsinv p seen st f : orhom p -> bsinv p seen st -> bsinv p (f :: seen) (add_file_o st f).
+Proof.
+  intros Hp H. assert (Hm : bsinv p (f :: seen) st) by (eapply bsinv_mono; [|exact H]; intros x Hx; now right).
+  unfold bsinv in *.
+  destruct (add_file_o_spec st f) as [(l1 & o & l2 & -> & Hr & _ & ->)|[_ ->]].
+  - apply Forall_app in Hm as [H1 H2]. inversion H2 as [|? ? _ H3]; subst.
+    apply Forall_app in H as [_ H]. inversion H as [|? ? Ho _]; subst.
+    apply Forall_app. split; [exact H1|]. constructor; [|exact H3]. now apply add_to_o_bsrc.
+  - apply Forall_app. split; [exact Hm|]. constructor; [|constructor].
+    apply add_to_o_bsrc; [exact Hp|reflexivity|constructor].
+Qed.
+
+Lemma add_files_o_bsinv p fs : forall seen st,
+  orhom p -> bsinv p seen st -> bsinv p (rev fs ++ seen) (fold_left add_file_o fs st).
+Proof.
+  induction fs as [|f fs IH]; intros seen st Hp H; cbn [fold_left rev app]; [exact H|].
+  rewrite <- app_assoc. cbn [app]. apply IH; [exact Hp|]. now apply add_file_o_bsinv.
+Qed.
+
+Lemma build_state_o_bsinv p fs : orhom p -> bsinv p fs (build_state_o fs).
+Proof.
+  intros Hp. unfold build_state_o. destruct fs as [|f0 fs']; [constructor|].
+  eapply bsinv_mono; [|apply (add_files_o_bsinv p (f0 :: fs') [] _ Hp)].
+  - intros x Hx. rewrite app_nil_r in Hx. now apply in_rev.
+  - constructor; [constructor|constructor].
+Qed.
+
+Lemma merge_o_batch_no_invention p fs c g rb :
+  orhom p -> In g (merge_files_o fs c) -> In rb (rfo_batches g) -> ohas p (rbo_opts rb) = true ->
+  exists f ib, In f fs /\ In ib (fo_batches f) /\ fo_route f = rfo_route g
+               /\ hkey (ib_header (ibo_batch ib)) = hkey (rbo_header rb)
+               /\ ib_entries (ibo_batch ib) <> []
+               /\ ohas p (batch_in_opts (fo_opts f) ib) = true.
+Proof.
+  intros Hp Hg Hrb Hh. destruct (merge_o_file_from fs c g Hg) as (o & Ho & Hr & _ & Hbs).
+  rewrite Forall_forall in Hbs. destruct (Hbs rb Hrb) as (b & Hb & Hhd & Hop).
+  pose proof (build_state_o_bsinv p fs Hp) as Hinv. unfold bsinv in Hinv.
+  rewrite Forall_forall in Hinv. specialize (Hinv o Ho). rewrite Forall_forall in Hinv.
+  specialize (Hinv b Hb). rewrite Hop in Hh. destruct (Hinv Hh) as (f & ib & H1 & H2 & H3 & H4 & H5 & H6).
+  exists f, ib. rewrite Hr, Hhd. repeat split; auto.
+Qed.
